@@ -83,6 +83,9 @@ def decode_codes(n):
 def main(argv):
     tier, seed, replay = tier_and_seed(argv)
     v = Verdict(PROP, tier, seed)
+    import time
+    T0 = time.time()
+    def lap(what): v.notes.append('t+%.0fs %s' % (time.time() - T0, what))
     proofs_ok, h_ok, unrec = standard_proof_steps(
         v, PROP, ['optable', 'opclass', 'tcdispatch'], ['theories/Props/C09.vo'], ['c09', 'truth-cli'],
         corr_targets=['theories/Corr/C09.vo'])
@@ -93,6 +96,7 @@ def main(argv):
     def found(cls, what, rep):
         if cls not in classes: classes[cls] = (what, dict(rep, **{'class': cls}))
 
+    lap('proof steps done')
     status = table_status(v) if v.corr_ok else None
     side = []             # (name, ok, detail)
     if status:
@@ -125,7 +129,8 @@ def main(argv):
             lines += run_harness(v, ['text', f], seed, timeout=300)
         for f in sorted(glob.glob(os.path.join(VERIF, 'corpus', 'C09', '*.ecl'))):
             lines += run_harness(v, ['ecl10', f], seed, timeout=300)
-        nprog, maxmut, cli = (160, 10, 60) if tier == 'quick' else (2500, 0, 1500)
+        nprog, maxmut, cli = (70, 8, 30) if tier == 'quick' else (2500, 0, 1500)
+        if os.environ.get('C09_GEN'): nprog, maxmut, cli = [int(x) for x in os.environ['C09_GEN'].split(',')]
         lines += run_harness(v, ['gen', nprog, maxmut, cli], seed)
     if h_ok and replay:
         r = json.load(open(replay))
@@ -134,6 +139,7 @@ def main(argv):
         if r.get('case'):
             lines.append('%s\t%s\t%s\treplay' % (r.get('kind', 'PROG'), r['case'], r.get('source', '')))
     lines = wit_lines + lines
+    lap('harness done')
 
     cases, texts, kinds, tags = [], [], [], []
     oracle_fail, notes, stats = [], [], ''
@@ -173,9 +179,9 @@ def main(argv):
         # every spec mismatch explained by table rows: one violation per class, smallest program first
         for i in sorted(explained, key=lambda i: (len(explained[i]), len(cases[i]))):
             for c in explained[i]:
+                acc = 'IOk' in cases[i][-12:]
                 what = ('type_check disagrees with the typing rules (%s by type_check, %s by the reference typer); the program depends on the %s'
-                        % (('accepted', 'rejected') if 'IOk' in cases[i][-12:] else ('rejected', 'accepted'),
-                           code_class(c)))
+                        % ('accepted' if acc else 'rejected', 'rejected' if acc else 'accepted', code_class(c)))
                 rep = {'kind': kinds[i], 'source_text': texts[i].replace('\\n', '\n') if kinds[i] == 'PROG' else None, 'case': cases[i], 'tag': tags[i]}
                 if texts[i] in later: rep['later_pass_panic'] = later[texts[i]]
                 found(code_class(c), what, rep)
@@ -188,6 +194,7 @@ def main(argv):
                         {'class': 'c09-corr:' + kinds[i], 'kind': kinds[i], 'case': cases[i], 'source': texts[i], 'tag': tags[i],
                          'source_text': texts[i].replace('\\n', '\n') if kinds[i] == 'PROG' else None, 'broken': 'correspondence Corr.C09.model_of'},
                         no_failing_input=(i not in smism and not oracle_fail))
+    lap('coq evaluation done')
     # (O) oracle failures that are not attached to a case: the ECL10 enum probe, harness problems
     later_on_well_typed = 0
     for f in oracle_fail:
